@@ -90,7 +90,14 @@ func verifTrimResponse(r *Response) {
 	r.Consent = ""
 	r.Status.StatusMessage = nil
 	r.Status.StatusDetail = nil
-	r.Status.StatusCode.StatusCode = nil
+	if verifParam("status.nested", 0) == 1 {
+		// a second-level status code may be present (its own nesting is cut)
+		if sc := r.Status.StatusCode.StatusCode; sc != nil {
+			sc.StatusCode = nil
+		}
+	} else {
+		r.Status.StatusCode.StatusCode = nil
+	}
 	if r.Issuer != nil {
 		r.Issuer.NameQualifier, r.Issuer.SPNameQualifier, r.Issuer.Format, r.Issuer.SPProvidedID = "", "", "", ""
 	}
